@@ -213,7 +213,7 @@ def parse_rvalue(s):
     s = s.strip()
     if s.startswith(('move ', 'copy ', 'no_retag copy ', 'const ')):
         # could be a cast: "move _5 as f64 (IntToFloat)"
-        m = re.match(r'^(.*) as (.*) \((\w+(?:\([^)]*\))?)\)$', s, re.S)
+        m = re.match(r'^(.*?) as (.*) \((\w+(?:\(.*\))?)\)$', s, re.S)
         if m and not s.startswith('const "'):
             try:
                 return ('cast', parse_operand(m.group(1)), m.group(2).strip(), m.group(3))
